@@ -393,8 +393,16 @@ func (e *Env) evalCall(x *ast.CallExpr) Value {
 		}
 		bv, atom := e.boundVar(id.Name, args[1])
 		body := e.with(id.Name, bv)
+		body.Side = nil
 		t := body.term(args[2])
-		e.Side = append(e.Side, body.Side...)
+		// side facts are valid formulas; those that mention the bound
+		// variable are closed universally before they leave its scope
+		for _, sd := range body.Side {
+			if mentionsAtom(sd, atom.Op) {
+				sd = Forall([]*Term{atom}, sd)
+			}
+			e.Side = append(e.Side, sd)
+		}
 		if fn.Name == "forall" {
 			return S(Forall([]*Term{atom}, t))
 		}
@@ -452,6 +460,10 @@ func (e *Env) evalCall(x *ast.CallExpr) Value {
 		e.S.X.Ctx.DeclareFunc(fname, []string{set.Sort}, SInt)
 		c := App(fname, SInt, set)
 		e.Side = append(e.Side, Ge(c, IntLit(0)))
+		// finite-set facts: card 0 <=> empty
+		el := Atom("q_el", IdxSort(set.Sort))
+		empty := Forall([]*Term{el}, Not(Select(set, el)))
+		e.Side = append(e.Side, Eq(Eq(c, IntLit(0)), empty))
 		return S(c)
 	case "typeof":
 		need(1)
@@ -625,4 +637,24 @@ func (x *Exec) constValue(c constant.Value, typ types.Type) Value {
 	}
 	unsupported("constant kind %v", c.Kind())
 	return nil
+}
+
+func mentionsAtom(t *Term, name string) bool {
+	if t.Bound != nil {
+		for _, b := range t.Bound {
+			if b.Op == name {
+				return false
+			}
+		}
+		return mentionsAtom(t.Args[0], name)
+	}
+	if len(t.Args) == 0 {
+		return t.Op == name
+	}
+	for _, a := range t.Args {
+		if mentionsAtom(a, name) {
+			return true
+		}
+	}
+	return false
 }
